@@ -59,6 +59,8 @@ type pipeConn struct {
 	wcap      int  // bytes the (virtual) socket buffers still take while stalled
 	wdeadline bool // a write deadline is set (SetWriteDeadline / SetDeadline with a non-zero time)
 	wblocked  bool // a Write is waiting for the client to read
+	rdeadline bool // a read deadline is set
+	rtimedout bool // the current wait for input already produced its timeout
 	log       *evlog
 	signal    chan struct{} // poked on: blocked, closed, write
 }
@@ -83,6 +85,7 @@ func (c *pipeConn) feed(b []byte) {
 	c.mu.Lock()
 	c.chunks = append(c.chunks, b)
 	c.blocked = false
+	c.rtimedout = false
 	c.cond.Broadcast()
 	c.mu.Unlock()
 }
@@ -119,6 +122,12 @@ func (c *pipeConn) Read(p []byte) (int, error) {
 			}
 			return 0, io.EOF
 		}
+		if c.rdeadline && !c.rtimedout {
+			// virtual time: the client pauses longer than any read deadline, once per gap in its transmission.  A server
+			// that gives up the wait must not lose what it had already read of the request.
+			c.rtimedout = true
+			return 0, timeoutErr{}
+		}
 		c.blocked = true
 		c.poke()
 		c.cond.Wait()
@@ -128,7 +137,7 @@ func (c *pipeConn) Read(p []byte) (int, error) {
 // timeoutErr is what a Write returns when its deadline expires (net.Error with Timeout() == true).
 type timeoutErr struct{}
 
-func (timeoutErr) Error() string   { return "write: i/o timeout" }
+func (timeoutErr) Error() string   { return "i/o timeout" }
 func (timeoutErr) Timeout() bool   { return true }
 func (timeoutErr) Temporary() bool { return true }
 
@@ -215,10 +224,18 @@ type dummyAddr string
 func (a dummyAddr) Network() string { return "pipe" }
 func (a dummyAddr) String() string  { return string(a) }
 
-func (c *pipeConn) LocalAddr() net.Addr               { return dummyAddr("local") }
-func (c *pipeConn) RemoteAddr() net.Addr              { return dummyAddr("remote") }
-func (c *pipeConn) SetReadDeadline(t time.Time) error { return nil }
-func (c *pipeConn) SetDeadline(t time.Time) error     { return c.SetWriteDeadline(t) }
+func (c *pipeConn) LocalAddr() net.Addr  { return dummyAddr("local") }
+func (c *pipeConn) RemoteAddr() net.Addr { return dummyAddr("remote") }
+func (c *pipeConn) SetReadDeadline(t time.Time) error {
+	c.mu.Lock()
+	c.rdeadline = !t.IsZero()
+	c.mu.Unlock()
+	return nil
+}
+func (c *pipeConn) SetDeadline(t time.Time) error {
+	c.SetReadDeadline(t)
+	return c.SetWriteDeadline(t)
+}
 func (c *pipeConn) SetWriteDeadline(t time.Time) error {
 	c.mu.Lock()
 	c.wdeadline = !t.IsZero()
